@@ -48,6 +48,13 @@ Theorem C02_canonical_row_degaps : forall ref I E, ~ In 45 ref -> (E <= length r
 Proof. exact degap_grow. Qed.
 Print Assumptions C02_canonical_row_degaps.
 
+(* --skip-insertions: the reference row is the reference and the query row is exactly the sam toMultiAlign --pad row of
+   the same block (same per-record CIGAR walk, same flattening, then '*' -> 'N'); any number of records *)
+Theorem C02_skip_insertions_eq_toma_pad : forall ref block R Q, block <> [] -> block_skip_ins ref block = Some (R, Q) ->
+  R = ref /\ exists raw, seq_from_block (length ref) block = Some raw /\ Q = fasta_seq true false 0 0 raw.
+Proof. exact skip_ins_eq_toma_pad. Qed.
+Print Assumptions C02_skip_insertions_eq_toma_pad.
+
 Example C02_example_two_records :
   block_to_seq_pair (bs "ACGTACGTACGTACGT")
     [ {| s_name := bs "q"; s_flag := 0; s_pos := 0%nat; s_cigar := [(OM,4);(OI,2);(OM,3)]%nat; s_seq := bs "ACGTTTACG" |};
